@@ -14,16 +14,20 @@ PROFILES = {
             "req": {"ssr": 0.3, "reload": 0.12, "incr": 0.15, "set": 0.08, "kill": 0.22, "signal": 0.02, "rm": 0.03, "add": 0.01, "quit": 0.01, "ro": 0.02}},
     "C04": {"eperm": 0.06, "exec_fail": 0.2, "hooks": True, "recipes": {"unsignalable_stop": 0.03, "untracked_zombies": 0.08, "on_demand_stop": 0.05, "stopped_worker": 0.04, "sequential_reload_death": 0.03, "reap_veto": 0.05}, "ops": {"die": 0.1, "fault": 0.08, "check": 0.2},
             "req": {"ssr": 0.3, "reload": 0.1, "incr": 0.15, "set": 0.05, "kill": 0.08, "signal": 0.02, "rm": 0.05, "add": 0.05, "quit": 0.0, "ro": 0.15}},
-    "C05": {"eperm": 0.08, "stubborn": 0.3, "recipes": {"unsignalable_stop": 0.04, "on_demand_stop": 0.05}, "ops": {"wake": 0.4, "check": 0.1},
-            "req": {"ssr": 0.28, "reload": 0.14, "incr": 0.1, "set": 0.05, "kill": 0.2, "signal": 0.03, "rm": 0.04, "add": 0.02, "quit": 0.01, "ro": 0.1}},
-    "C06": { "recipes": {"unsignalable_stop": 0.05},"eperm": 0.12, "ops": {"raw": 0.1, "wake": 0.3}, "req": {}},
-    "C08": { "recipes": {"unsignalable_stop": 0.05},"eperm": 0.10, "stubborn": 0.2, "ops": {"sig": 0.06, "wake": 0.4}, "req": {"quit": 0.08}},
+    "C05": {"eperm": 0.08, "stubborn": 0.3, "recipes": {"unsignalable_stop": 0.04, "on_demand_stop": 0.05, "options_observe": 0.05}, "ops": {"wake": 0.4, "check": 0.1},
+            "req": {"ssr": 0.28, "reload": 0.12, "incr": 0.08, "set": 0.05, "kill": 0.18, "signal": 0.03, "rm": 0.04, "add": 0.02, "quit": 0.01, "ro": 0.16}},
+    "C06": {"eperm": 0.12, "recipes": {"unsignalable_stop": 0.05}, "ops": {"raw": 0.1, "wake": 0.3}, "req": {}},
+    "C08": {"eperm": 0.10, "recipes": {"unsignalable_stop": 0.05}, "stubborn": 0.2, "ops": {"sig": 0.06, "wake": 0.4}, "req": {"quit": 0.08}},
     "C09": {"recipes": {"untracked_zombies": 0.06, "sequential_reload_death": 0.05, "reap_veto": 0.04}, "ops": {"die": 0.15, "xkill": 0.08, "check": 0.18},
             "req": {"incr": 0.25, "set": 0.1, "reload": 0.15, "ssr": 0.2, "kill": 0.08, "signal": 0.02, "rm": 0.02, "add": 0.02, "quit": 0.0, "ro": 0.05}},
-    "C10": { "recipes": {"unsignalable_stop": 0.10},"eperm": 0.15, "hooks": True, "exec_fail": 0.15, "ops": {"wake": 0.25, "check": 0.1}, "req": {}},
-    "C11": {"recipes": {"singleton_set": 0.04}, "ops": {"wake": 0.25}, "req": {"set": 0.2, "add": 0.12, "kill": 0.12, "signal": 0.12}},
-    "C14": {"recipes": {"signal_veto": 0.05, "reap_veto": 0.05}, "hooks": True, "stubborn": 0.2, "ops": {"wake": 0.45},
-            "req": {"ssr": 0.45, "reload": 0.08, "incr": 0.08, "set": 0.02, "kill": 0.12, "signal": 0.12, "rm": 0.02, "add": 0.02, "quit": 0.0, "ro": 0.02}},
+    "C10": {"eperm": 0.15, "recipes": {"unsignalable_stop": 0.10}, "hooks": True, "exec_fail": 0.15, "ops": {"wake": 0.25, "check": 0.1}, "req": {}},
+    # (with the default weights of the other commands the cumulated weights passed 1 before `ro` and the malformed messages
+    # were reached: C11 never sent a read-only request — every weight is spelled out now)
+    "C11": {"recipes": {"singleton_set": 0.04, "options_observe": 0.08}, "ops": {"wake": 0.25}, "set_extra": True, "owner": 0.3,
+            "req": {"ssr": 0.16, "reload": 0.05, "incr": 0.08, "set": 0.2, "kill": 0.1, "signal": 0.1, "rm": 0.03, "add": 0.1, "quit": 0.01,
+                    "ro": 0.13}},
+    "C14": {"recipes": {"signal_veto": 0.05, "reap_veto": 0.05, "set_hook": 0.08}, "hooks": True, "stubborn": 0.2, "ops": {"wake": 0.45}, "set_hooks": 0.8,
+            "req": {"ssr": 0.41, "reload": 0.08, "incr": 0.08, "set": 0.06, "kill": 0.12, "signal": 0.12, "rm": 0.02, "add": 0.02, "quit": 0.0, "ro": 0.02}},
     "C15": {"ops": {"wake": 0.3}, "req": {"add": 0.22, "rm": 0.15, "ssr": 0.25, "ro": 0.25, "incr": 0.03, "set": 0.02, "kill": 0.02, "signal": 0.02, "reload": 0.02, "quit": 0.0}},
     "C18": {"eperm": 0.08, "recipes": {"signal_veto": 0.03, "children_vanish": 0.04}, "ops": {"wake": 0.3}, "req": {"signal": 0.4, "kill": 0.3, "ssr": 0.1, "incr": 0.03, "set": 0.02, "rm": 0.02, "add": 0.03, "reload": 0.02, "quit": 0.0, "ro": 0.03}},
     "C19": {"start_first": 1.0, "recipes": {"topup_start": 0.15, "pattern_subset": 0.08}, "ops": {"wake": 0.75, "adv": 0.08, "die": 0.08, "check": 0.0, "xkill": 0.02, "fault": 0.03, "raw": 0.0, "sig": 0.0},
@@ -46,6 +50,11 @@ ASSUMPTIONS = [
     "the random jitter of max_age (`randint(0, max_age_variance)`) is fixed to the least value the code asks for",
     "one external stimulus per atomic step, then the event loop runs to quiescence; timers fire in (deadline, creation) order",
     "graceful_timeout values are those for which the float loop `waited += 0.1` makes ceil(T/100ms) polls (checked by the generator)",
+    "reply bodies of `options` / `get` are compared on the options the model's watcher record carries (numprocesses, warmup_delay, "
+    "graceful_timeout, stop_signal, stop_children, priority, respawn, max_retry, max_age, singleton, on_demand, send_hup; times in "
+    "integer ms, `singleton` by truthiness), the other options of the real watcher (cmd, env, uid, …) are left out on both sides; "
+    "watchers added with options that are no constructor parameter (`retry_in`, dotted keys: they become extra option names, and "
+    "`get` on them raises AttributeError) and negative max_age are outside the domain; `dstats` gets constant figures (no psutil)",
     "watcher names over ASCII + Latin-1; glob patterns over * and ?; regex matching, on_demand sockets, stream redirection and "
     "reloadconfig are outside this layer",
 ]
@@ -96,7 +105,7 @@ def make(prop_id, lean_props, lean_lemmas=(), n_quick=900, n_thorough=6000, extr
     def impl_run(sc):
         s = sim.Sim(sc)
         steps = s.run()
-        return {"steps": [{"op": st["op"], "lines": st["lines"], "snap": st["snap"], "slept": st["slept"],
+        return {"steps": [{"op": st["op"], "lines": st["lines"], "snap": st["snap"], "slept": st["slept"], "opts": st.get("opts"),
                            "reasons": st.get("reasons", [])} for st in steps],
                 "hook_calls": [[w, h, n] for (w, h), n in sorted(s.counters.items())]}
 
